@@ -14,7 +14,8 @@ import (
 //
 //	u <lit> <s>                      ParseZqlString(lit)            -> hex of the result
 //	e <op> <lit> <s> <field>...      parse `f <op> lit`, EvalBool with f := each field -> bits
-//	b <op> <lit> <s> <value>...      the same through Store.QueryIds of a bolt store (c11_bolt.go)
+//	b <op> <lit> <s> <value>... [E]  the same through Store.QueryIds of a bolt store (c11_bolt.go)
+//	d <form> <lit> <s> <lit2> <s2> <field>...   two literals in one filter (or / in / and-ne)
 //
 // <lit> is the quoted literal, built by the *generator* from s with a random choice, per
 // control character occurrence, of escaped or raw form (raw control characters are not
@@ -135,6 +136,20 @@ func c11Emit(out *bufio.Writer, s string, r *rng) {
 		fmt.Fprintf(out, " %s", toWire(f))
 	}
 	out.WriteByte('\n')
+	// two literals in one filter: `f = lit or f = lit2` (and `f in [lit, lit2]`): the value of one literal must not depend
+	// on another literal being unescaped after it
+	if r.chance(1, 3) {
+		s2 := s + pick(r, c11Alphabet)
+		if rs := []rune(s); r.chance(1, 2) && len(rs) > 0 {
+			s2 = pick(r, c11Alphabet) + string(rs[:len(rs)-1]) // whole characters only: inputs are valid UTF-8
+		}
+		form := pick(r, []string{"or", "in", "and-ne"})
+		fmt.Fprintf(out, "d %s %s %s %s %s", form, toWire(c11Escape(s, r, true)), toWire(s), toWire(c11Escape(s2, r, true)), toWire(s2))
+		for _, f := range append(c11Fields(s, r), s2) {
+			fmt.Fprintf(out, " %s", toWire(f))
+		}
+		out.WriteByte('\n')
+	}
 	// the same through a bolt-backed store (ids and a string field), for one string in eight and
 	// always for short ones: values must be usable bbolt keys (non-empty) and distinct
 	if len(s) <= 2 || r.chance(1, 8) {
@@ -151,7 +166,7 @@ func c11Emit(out *bufio.Writer, s string, r *rng) {
 			for _, f := range vals {
 				fmt.Fprintf(out, " %s", toWire(f))
 			}
-			out.WriteByte('\n')
+			out.WriteString(" E\n")
 		}
 		// two neighbouring literals in sequence on one store: texts that differ only where a normalising
 		// front end (blank collapsing, trimming, case folding) would identify them
@@ -169,7 +184,7 @@ func c11Emit(out *bufio.Writer, s string, r *rng) {
 				for _, f := range vals {
 					fmt.Fprintf(out, " %s", toWire(f))
 				}
-				out.WriteByte('\n')
+				out.WriteString(" E\n")
 			}
 		}
 	}
@@ -259,6 +274,33 @@ func c11Exec(line string) string {
 		return b.String()
 	case "b", "c":
 		return c11ExecBolt(f)
+	case "d":
+		l1, l2 := fromWire(f[2]), fromWire(f[4])
+		var q string
+		switch f[1] {
+		case "or":
+			q = "f = " + l1 + " or f = " + l2
+		case "in":
+			q = "f in [" + l1 + ", " + l2 + "]"
+		default:
+			q = "f != " + l1 + " and f != " + l2
+		}
+		syms := newMemSymbols()
+		syms.types["f"] = ast.NodeTypeString
+		query, err := ast.Parse(syms, q)
+		if err != nil {
+			return "parse-error"
+		}
+		var b strings.Builder
+		for _, fv := range f[6:] {
+			syms.scalars["f"] = fromWire(fv)
+			if query.EvalBool(syms) {
+				b.WriteByte('1')
+			} else {
+				b.WriteByte('0')
+			}
+		}
+		return b.String()
 	}
 	return "bad-case"
 }
